@@ -455,3 +455,11 @@ pub(crate) fn close_args(c: &mut super::Close) -> (i32, crate::fd::Kind) {
     let (_r, a) = ops::resources_args(&mut c.state);
     *a
 }
+
+// Accessors for C13 (`state` is private to `io`).
+pub(crate) fn readv_iovecs<'a, B: BufMutSlice<N>, const N: usize>(f: &'a mut ReadVectored<'_, B, N>) -> &'a [IoMutSlice; N] {
+    &ops::resources_args(&mut f.state).0.1
+}
+pub(crate) fn writev_iovecs<'a, B: BufSlice<N>, const N: usize>(f: &'a mut WriteVectored<'_, B, N>) -> &'a [IoSlice; N] {
+    &ops::resources_args(&mut f.state).0.1
+}
